@@ -155,3 +155,6 @@ PROPS.update({
         level_note="PARTIAL: soundness of the syntactic extractor and the Go memory model are trusted, not proved; deadlock freedom is not a theorem about the code but the conjunction of the lock-free-callback and lock-order obligations with what C02/C06/C07's controlled schedules and the stress watchdog exhibit.",
         technique="Lean 4: RW-mutex invariant + discipline⇒no-race theorem; obligations `decide`d on a fact table regenerated from the Go source by a go/ast extractor; race-detector stress as witness search"),
 })
+
+# C09's concurrent clause: an implementation-side judge under real concurrency (N publishes -> N records, increasing offsets)
+PROPS["C09"]["parts"].append(dict(name="racepub09", domain="resume", domain_module="resume", gen=resume.gen_racepub, n_quick=6, n_thorough=200, chunk=4))
